@@ -13,7 +13,9 @@
 //! * `opts … layout …`    indent_width / max_width / vertical_align: `tokens=` equal token streams, `comments=`
 //!     equal comments, `nonws=` equal non-whitespace character streams.
 //! * `opts … expand …`    expand_inside_operation: `struct=` the token streams are equal up to rewriting every
-//!     `(X) inside {items}` into the `||` chain of `inside_element_operation` (Props/C26 `inside_expanded_equiv`).
+//!     `(X) inside {items}` into the `||` chain of `inside_element_operation` (Props/C26 `inside_expanded_equiv`);
+//!     `newcomments=` the expansion invents no comment (it may drop the comments of the `{ , }` tokens it does not
+//!     write and repeat those inside the tested expression: comments are not behaviour).
 //! * `rstrip <ropts> <doc>`  the REAL unstripped Doc; impl = the non-whitespace stream of the real output under
 //!     strip_comments; model = the same of M-Pretty applied to the Doc with its `Comments` nodes deleted.
 //! * `dflags <doc>`, `render <ropts> <doc>` as in the domain `smap`.
@@ -445,8 +447,15 @@ fn run_project(files: emitctx::FileSet, round: u64, seed: u64, nlayout: u64, ren
                 if n > 0 {
                     log.count("files_with_inside");
                 }
-                let v = format!("struct={} comments={}", b(ok), b(svlex::comments(&e.sv) == cb));
-                lines.push(Line { op: format!("opts {id} expand {} {} {hs}", base.show(), o.show()), imp: v, oracle: "struct=ok comments=ok".into() });
+                // Comments are not behaviour, and the expansion cannot keep them in place: the `{`, `,`, `}` tokens
+                // of the set are not written (their comments go), the tested expression is written once per
+                // element (its comments repeat). Checked: the expansion invents no comment; the rest is a statistic.
+                let ce = svlex::comments(&e.sv);
+                let invented = ce.iter().filter(|c| !cb.contains(c)).count();
+                log.add("expand_comments_dropped", cb.iter().filter(|c| !ce.contains(c)).count() as u64);
+                log.add("expand_comments_repeated", ce.len().saturating_sub(cb.len()) as u64);
+                let v = format!("struct={} newcomments={}", b(ok), b(invented == 0));
+                lines.push(Line { op: format!("opts {id} expand {} {} {hs}", base.show(), o.show()), imp: v, oracle: "struct=ok newcomments=ok".into() });
             }
             // ---- side conditions + rendering of the real Doc
             if let Some((d, ro)) = &eb.doc {
@@ -527,7 +536,7 @@ fn replay(log: &mut Log, path: &str) {
                         ),
                         _ => {
                             let (ok, _) = expand_equiv(&ta, &tb2);
-                            (format!("struct={} comments={}", b(ok), b(ca == cb)), "struct=ok comments=ok".to_string())
+                            (format!("struct={} newcomments={}", b(ok), b(cb.iter().all(|c| ca.contains(c)))), "struct=ok newcomments=ok".to_string())
                         }
                     })
                 });
